@@ -368,6 +368,11 @@ impl VM {
                         )));
                     }
                     let [ip, num_locals] = obj.as_function();
+                    if num_args as u32 > num_locals {
+                        return Err(Error::ArgumentError(format!(
+                            "functie verwacht hooguit {num_locals} argumenten, maar kreeg er {num_args}"
+                        )));
+                    }
 
                     // Make room on the stack for any local variables defined inside this function
                     for _ in 0..num_locals - num_args as u32 {
